@@ -35,14 +35,14 @@ class Skip(Exception):
 SMALL = {
     'BOOLEAN': [True, False],
     'INTEGER': [0, 1, 2, 3, -1],
-    'REAL': [0.0, 1.5, -2.25, 3.0],
+    'REAL': [0.0, 1.5, -2.25, 3.0, 10.0],
     'STRING': ['', 'a', 'b', 'A', 'ab'],
     'UNIQUE_ID': [1, 2, 3, 4, 0],
 }
 EXOTIC = {
     'BOOLEAN': [True, False],
     'INTEGER': [-7, 2 ** 63, -2 ** 64 - 1, 10 ** 30, 123456789012345678901234567890],
-    'REAL': [1e15 + 0.5, -1234567.890625, 0.000001, 2.0 ** 40, -0.5],
+    'REAL': [1e15 + 0.5, -1234567.890625, 0.000001, 2.0 ** 40, -0.5, 1200.0, -30.0, 1e20, 100.25],
     'STRING': ["it's", "''", "a--b", "-- x", "l1\nl2", "x\ty", "q\"q", "\u00fc\u2603", "\x00z", "a'';b", " lead", "trail ",
                "CREATE TABLE", "'"],
     'UNIQUE_ID': [2 ** 128 - 1, 2 ** 127, 2 ** 64, 5],
@@ -182,11 +182,12 @@ PROFILES = {
     'C09': dict(new=5, relate=8, relate_overflow=0.5, unrelate=2.5, delete=1.5, setattr=3, select=9, nav=9,
                 subtype=1.5, hold=1.5, recheck=2, new_ref=1, nav_bad=0.5),
     'C10': dict(new=3, new_kw=3, relate=3, unrelate=1, setattr=10, getattr=6, delattr=1.2, set_ref=1,
-                select_eq=5, find_class=1.5, delete=0.5, del_unset=0.4),
+                select_eq=5, find_class=1.5, delete=0.5, del_unset=0.4, define_again=0.5),
     'C11': dict(new=5, relate=7, unrelate=4, delete=2, setattr_id=5, setattr=1, check=6, new_ref=1),
     'C16': dict(new_n=5, relate_n=10, unrelate_n=3, delete=1.2, sort=8, sort_partial=2, relate_overflow=1.5,
                 new=1, relate=1),
-    'C19': dict(new=4, new_args=9, new_kw=4, new_bad=1, idgen=5, relate=2, delete=1, setattr=1, select=1, swap_idgen=0.6),
+    'C19': dict(new=4, new_args=9, new_kw=4, new_bad=1, idgen=5, relate=2, delete=1, setattr=1, select=1, swap_idgen=0.6,
+                add_attr=0.8),
 }
 
 
@@ -221,7 +222,7 @@ class Gen(object):
         }
         if prop == 'C10':
             self.cfg['shadow'] = sw.choice([None, 'upper', 'lower', 'swap'])
-        if prop in ('C02', 'C09', 'C11', 'C16') and sw.random() < 0.3:
+        if prop in ('C02', 'C09', 'C11', 'C16', 'C10') and sw.random() < 0.3 and not self.cfg.get('shadow'):
             # the history starts from a *loaded* population (null / duplicate / dangling keys: states with
             # over-populated ends that the API alone cannot reach)
             from engines import sqlgen
@@ -231,6 +232,11 @@ class Gen(object):
             prng = self.st['preload']
             for r in rows:
                 r['style'] = {'value': prng.randrange(12), 'multiline': prng.random() < 0.3}
+                if prop == 'C10' or prng.random() < 0.15:
+                    # named columns, each under its own spelling, class name too
+                    r['style'] = {'value': prng.randrange(12), 'named': True,
+                                  'col_spelling': {n: prng.choice(spellings(n)) for n, _ in self.sch_attrs(schema, r['kind'])},
+                                  'kind_spelling': prng.choice(spellings(r['kind']))}
             self.cfg['preload'] = rows
             self.cfg['route'] = 'text'
             self.cfg['max_live'] = max(self.cfg['max_live'], len(rows) + 3)
@@ -245,7 +251,8 @@ class Gen(object):
             if k not in keep and sw.random() < 0.2:
                 del w[k]
         self.cfg['weights'] = w
-        self.sch = Schema(schema)
+        import copy
+        self.sch = Schema(copy.deepcopy(schema))
         _, refgen = make_idgen(_FakeXtuml, self.cfg['idgen'], seed)
         self.ref = RefStore(self.sch, refgen)
         if self.cfg.get('preload'):
@@ -254,10 +261,17 @@ class Gen(object):
         self.nh = 0
         self.dead = []
         self.holds = 0
-        self.good_classes = [c for c in schema['classes'] if not c.get('bad')]
-        self.bad_classes = [c for c in schema['classes'] if c.get('bad')]
+        self.good_classes = [c for c in self.sch.classes if not c.get('bad')]
+        self.bad_classes = [c for c in self.sch.classes if c.get('bad')]
 
     # ---- helpers
+    @staticmethod
+    def sch_attrs(schema, kind):
+        for c in schema['classes']:
+            if c['kind'].upper() == kind.upper():
+                return [tuple(a) for a in c['attrs']]
+        return []
+
     def live_all(self):
         return [h for h, r in self.ref.rows.items() if r.alive]
 
@@ -747,6 +761,15 @@ class Gen(object):
             op['rel'] = st['rel']
         return op
 
+    def op_add_attr(self):
+        '''the attribute list of a metaclass is public API: append or insert an attribute in mid-history'''
+        rng = self.rng
+        c = rng.choice(self.good_classes)
+        self.nattr = getattr(self, 'nattr', 0) + 1
+        ty = rng.choice(['integer', 'string', 'UNIQUE_ID', 'Boolean', 'real', 'unique_id'])
+        idx = None if rng.random() < 0.4 else rng.randint(0, len(c['attrs']))
+        return {'op': 'add_attr', 'kind': self.sp(c['kind']), 'name': 'X%d' % self.nattr, 'type': ty, 'index': idx}
+
     def op_swap_idgen(self):
         '''the id generator is a public attribute of the metamodel: replace it in mid-history'''
         self.nswap = getattr(self, 'nswap', 0) + 1
@@ -768,6 +791,11 @@ class Gen(object):
         if not self.holds:
             return None
         return {'op': 'recheck', 'slot': 'r%d' % self.rng.randrange(self.holds)}
+
+    def op_define_again(self):
+        '''a class name is taken whatever its letter case: a second definition must be rejected'''
+        c = self.rng.choice(self.good_classes)
+        return {'op': 'define_again', 'kind': self.rng.choice(spellings(c['kind'])), 'fault': 'F1'}
 
     def op_find_class(self):
         c = self.rng.choice(self.good_classes)
@@ -858,12 +886,16 @@ class Gen(object):
                 op = self.op_idgen()
             elif k == 'swap_idgen':
                 op = self.op_swap_idgen()
+            elif k == 'add_attr':
+                op = self.op_add_attr()
             elif k == 'hold':
                 op = self.op_hold()
             elif k == 'recheck':
                 op = self.op_recheck()
             elif k == 'find_class':
                 op = self.op_find_class()
+            elif k == 'define_again':
+                op = self.op_define_again()
             elif k in getattr(self, '_extra', {}):
                 op = self._extra[k]()
             if op is None:
@@ -1109,6 +1141,22 @@ def apply_ref(ref, op, gen_time=False, world=None):
     if k == 'swap_idgen':
         _, ref.idgen = make_idgen(_FakeXtuml, op['kind'], 0)
         return ('swap', None)
+    if k == 'add_attr':
+        try:
+            c = sch.cls(op['kind'])
+        except KeyError:
+            raise Skip('unknown class')
+        if c.get('bad') or sch.declared(c['kind'], op['name']) is not None:
+            raise Skip('attribute exists')
+        idx = op['index']
+        if idx is None or idx > len(c['attrs']):
+            c['attrs'].append([op['name'], op['type']])
+        else:
+            c['attrs'].insert(idx, [op['name'], op['type']])
+        # instances that exist already do not have the attribute
+        for h in ref.live(c['kind']):
+            ref.rows[h].unset.add(op['name'])
+        return ('swap', None)
     if k == 'recheck':
         return ('recheck', None)
     if k == 'find_class':
@@ -1116,6 +1164,12 @@ def apply_ref(ref, op, gen_time=False, world=None):
             return ('ret', sch.cls(op['kind'])['kind'])
         except KeyError:
             raise Skip('unknown class')
+    if k == 'define_again':
+        try:
+            sch.cls(op['kind'])
+        except KeyError:
+            raise Skip('unknown class')
+        raise RefError('MetaModelException', 'class already defined')
     if k in ('checkpoint', 'restart'):
         return ('disk', None)
     raise ValueError('unknown op %r' % k)
@@ -1127,9 +1181,10 @@ def apply_ref(ref, op, gen_time=False, world=None):
 class World(object):
     '''The real model plus the handle maps.'''
     def __init__(self, xtuml, cfg, seed):
+        import copy
         self.x = xtuml
         self.cfg = cfg
-        self.schema = Schema(cfg['schema'])
+        self.schema = Schema(copy.deepcopy(cfg['schema']))
         self.real_gen, self.ref_gen = make_idgen(xtuml, cfg['idgen'], seed)
         self.m = build_model(xtuml, cfg['schema'], cfg['route'], self.real_gen, cfg.get('preload'))
         self.gen = self.m.id_generator
@@ -1264,7 +1319,8 @@ class StoreEngine(Engine):
             'C11': ['check_nonzero_assoc', 'check_nonzero_unique', 'check_zero', 'check_consistent_true',
                     'check_consistent_false'],
             'C16': ['sort_chain_ge3', 'sort_ring_ge2', 'sort_multi_chain', 'sort_empty', 'sort_partial'],
-            'C19': ['new_positional', 'new_keyword', 'F1_unknown_type', 'idgen_peek', 'defaulted_ids', 'idgen_swapped'],
+            'C19': ['new_positional', 'new_keyword', 'F1_unknown_type', 'idgen_peek', 'defaulted_ids', 'idgen_swapped',
+                    'attribute_added'],
         }[prop]
         return [k for k in need if not probes.get(k) and not faults.get(k)]
 
@@ -1458,6 +1514,8 @@ class Exec(object):
             self.bump(self.faults, 'F1_unknown_type')
         elif k == 'new':
             self.bump(self.faults, 'F1_new_rejected')
+        elif k == 'define_again':
+            self.bump(self.faults, 'F1_define_again')
         else:
             self.bump(self.faults, 'F1_other')
 
@@ -1593,6 +1651,14 @@ class Exec(object):
             if op['f'] == 'next':
                 return g.next() if hasattr(g, 'next') else next(g)
             return next(g)
+        if k == 'add_attr':
+            mc = m.find_metaclass(op['kind'])
+            if op['index'] is None or op['index'] > len(mc.attributes):
+                mc.append_attribute(op['name'], op['type'])
+            else:
+                mc.insert_attribute(op['index'], op['name'], op['type'])
+            self.bump(self.probes, 'attribute_added')
+            return None
         if k == 'swap_idgen':
             g, _ = make_idgen(x, op['kind'], 0)
             m.id_generator = g
@@ -1610,6 +1676,8 @@ class Exec(object):
                                 % (self.step, got, expected), 'held')
             self.bump(self.probes, 'held_rechecked')
             return None
+        if k == 'define_again':
+            return m.define_class(op['kind'], [('Other', 'integer')])
         if k == 'find_class':
             cls = m.find_class(op['kind'])
             mc = m.find_metaclass(op['kind'])
@@ -1804,6 +1872,9 @@ class Exec(object):
         finally:
             if metered:
                 self.e.meter.stop()
+        if w.labels(qs) != hs:
+            raise Violation('sort', 'step %d: sort_reflexive changed the set it was given: %s, was %s'
+                            % (self.step, w.labels(qs), hs), 'sort:argument-mutated')
         got = w.labels(res)
         comps = components(ref, i, hs)
         whole = all(set(c['members']) <= set(hs) for c in comps)
